@@ -4,14 +4,15 @@ from .mir import callee, callee_matches, Prov
 from .ctx import where_of
 
 EXPLANATION = (
-    "Each way the code could copy what must be shared or share what must be fresh: (set-in-place) LexicalScope::set "
-    "overwrites through the &mut obtained from the frame's map, walks to the parent only on a miss and never inserts; "
-    "(no-frame-copy) the derived LexicalScope::clone has no caller; (fresh-frame) every application creates its child "
-    "frame before the first binding and the frame escapes only into bindings, the evaluator and the pending tail call; "
-    "(vector-type) vector storage is Rc-shared (Value::Vector holds ValueReference = Rc<Vec>/Rc<RefCell<Vec>> with the "
-    "derived, Rc-cloning Clone) and no Vec<Value> is cloned on evaluator paths; (literal-immutable) read_literal builds "
-    "only immutable vectors, mutable ones come only from vector/make-vector, the only mutable borrow of vector storage "
-    "is ValueReference::as_mut whose Immutable arm is Err(RequiresMutable), called only by vector-set!.")
+    'Each way the code could copy what must be shared or share what must be fresh: (set-in-place) assignment '
+    'table of set! and the scope-chain table of LexicalScope::set on a three-frame chain (all subsets of binding '
+    'frames): exactly one store, into the innermost binding, never an insert, unbound => Err; (fresh-frame) '
+    'application and self-tail-call tables: one new frame per application, also when a procedure tail-calls '
+    'itself; (vector tables) vector-ref / vector-set! on mutable and literal vectors with index -1, 0, 1, 2: the '
+    'element returned is the stored one, only the addressed slot is replaced, errors leave the storage untouched, '
+    'literal vectors are immutable; (no-frame-copy, vector-type) no deep copy of frames or of vector storage on '
+    'evaluator paths: Value::Vector holds an Rc-shared ValueReference, the derived LexicalScope::clone has no '
+    'caller.')
 NOT_DECIDED = "the alias relation over arbitrary operation histories."
 
 INTERP = "interpreter::interpreter::Interpreter::"
@@ -182,6 +183,10 @@ def run(ctx):
             if callee_matches(t, "std::cell::RefCell::borrow_mut", "std::cell::RefCell::get_mut", "std::cell::RefCell::replace",
                               "std::cell::RefCell::swap", "std::rc::Rc::get_mut", "std::rc::Rc::make_mut", "std::cell::RefCell::as_ptr"):
                 owner = g.name.split("::{closure")[0]
+                # only cells that hold vector storage (a cell around a map, a cache ... is not what this property is about)
+                aty = ((t.get("argtys") or [""])[0] or "") + " " + " ".join(str(x) for x in ((t.get("fn") or {}).get("generics") or []))
+                if "Vec<" not in aty:
+                    continue
                 ctx.inst("C03-literal-immutable", "cell-mutation<-" + owner)
                 if owner != "values::ValueReference::as_mut":
                     ctx.report("C03-literal-immutable", "cell-mutation/" + owner, "%s mutates shared storage directly (%s)" % (owner, callee(t)), where_of(g, t))
